@@ -17,8 +17,47 @@ RDC = "darsia.corrections.readcorrection"
 BASE = "darsia.corrections.basecorrection"
 
 
+def _metadata_keys_folded(m, cls):
+    """metadata() folded on an object whose attributes are opaque tokens named `self.<attr>`: {key: term text}, or None."""
+    from ..fold import Folder, Obj, Opaque, Raised, Refuse, Sym
+    from ..terms import nf
+
+    f = m.method(cls, "metadata")
+    methods = {name for kk in m.mro(cls) for name in kk.methods}
+    attrs = set()
+    for kk in m.mro(cls):
+        g = kk.methods.get("metadata")
+        if g is not None and g.params:
+            attrs |= {x.attr for x in ast.walk(g.node) if isinstance(x, ast.Attribute) and isinstance(x.value, ast.Name) and x.value.id == g.params[0]}
+    # attributes read through getattr(self, name) over a class-level table of names are covered by offering every attribute any method assigns
+    for kk in m.mro(cls):
+        for g in kk.methods.values():
+            if g.params:
+                attrs |= {t.attr for st in ast.walk(g.node) if isinstance(st, (ast.Assign, ast.AnnAssign)) for t in (st.targets if isinstance(st, ast.Assign) else [st.target])
+                          if isinstance(t, ast.Attribute) and isinstance(t.value, ast.Name) and t.value.id == g.params[0]}
+    class_level = {t.id for kk in m.mro(cls) for st in kk.node.body if isinstance(st, (ast.Assign, ast.AnnAssign))
+                   for t in (st.targets if isinstance(st, ast.Assign) else [st.target]) if isinstance(t, ast.Name)}
+    so = Obj("self", {"__class__": cls.name, **{a: Opaque("attr", f"self.{a}") for a in attrs - methods - class_level}})
+    fo = Folder(symbolic=True)
+    fo.func_stack.append(f.node)
+    fo.fold_all_methods = True
+    fo.overrides = {"getattr": lambda a, k: (a[0].fields.get(a[1]) if isinstance(a[0], Obj) and isinstance(a[1], str) and a[1] in a[0].fields else (_ for _ in ()).throw(Refuse("getattr")))}
+    try:
+        r = fo.call(f.node, [so])
+    except (Refuse, Raised):
+        return None
+    while isinstance(r, Sym) and r.fn in ("copy.copy", "copy.deepcopy", "dict") and len(r.args) == 1:
+        r = r.args[0]
+    if not isinstance(r, dict) or not all(isinstance(k_, str) for k_ in r):
+        return None
+    return {k_: nf(v) for k_, v in r.items()}
+
+
 def metadata_keys(m, cls):
     """{key: value expr text} of the dict built by cls.metadata() (following super().metadata())."""
+    folded = _metadata_keys_folded(m, cls)
+    if folded:
+        return folded
     f = m.method(cls, "metadata")
     keys = {}
     for n in ast.walk(f.node):
